@@ -39,7 +39,11 @@ THEOREMS = ['C14_squeeze_closed_form', 'C14_content_layout',
             'C14_front_metamorphic_case', 'C14_surface_metamorphic',
             'C14_split_cell_rendered', 'C14_cell_metamorphic',
             'C14_material_cell_parsed', 'C14_split_likebut',
-            'C14_options_trailing_blank', 'C14_shorthand_invariant']
+            'C14_options_trailing_blank', 'C14_shorthand_invariant',
+            'C14_shorthand_expected_fits', 'C14_shorthand_expected_overlong_refuted',
+            'C14_split_cell_rendered_density', 'C14_split_cell_rendered_like',
+            'C14_parse_all_congruence_linked', 'C14_parse_metamorphic_linked',
+            'C14_parse_metamorphic_c09_linked', 'C14_message_no_blank_refuted']
 TRUSTED = [
     'hand-written model coq/C14/Model.v (modelled, tied by execution only); '
     'regexes re-implemented as scanners: tied exhaustively on short strings '
@@ -101,7 +105,7 @@ EXHAUSTIVE = [
     ('words', ' \tx\ny', 5, 7, [('', '')]),
     ('splitlines', 'a \n\r\x0b', 5, 7, [('', '')]),
     ('lower', ''.join(chr(k) for k in range(128)), 1, 2, [('', ''), ('aZ', '{')]),
-    ('blocks', 'a \n', 8, 10, [('', ''), ('message: \n', ''), ('Message:x\n\n', ''),
+    ('blocks', 'a \n', 8, 9, [('', ''), ('message: \n', ''), ('Message:x\n\n', ''),
                               ('t\n', '\n\n')]),
     ('blocks', 'ac \n\t', 5, 7, [('', ''), (' MESSAGE:', '')]),
     ('get_cards', 'c \n&x\t$', 4, 6, [('', ''), ('1', '')]),
@@ -394,7 +398,7 @@ def malform(rng, text):
 
 
 def prepare_layout(res, tier, rng):
-    n_decks = 24 if tier == 'quick' else 300
+    n_decks = 24 if tier == 'quick' else 200
     triples, meta = [], []
 
     def add(name, inp, nontrivial=True):
@@ -516,8 +520,17 @@ def fortran_only(tok):
 
 
 def known_class(base_text, text, base, new, msg):
-    '''No open finding is left for C14 (the Fortran-spelling classes were
-    repaired in /repo ffaf98c and a161adb): every difference is a violation.'''
+    '''Narrow class of the open finding message_block_no_blank_after_colon:
+    the rewrite is the original text behind ONE extra block "message:<word>..."
+    (no blank after the colon) and a blank line, the original converts, the
+    rewrite dies in get_block_positions (ValueError, spurious blank lines).'''
+    if base[0] != 'ok' or new != ('err', 'ValueError'):
+        return None
+    if 'spurious blank lines' not in msg or not text.endswith(base_text):
+        return None
+    head = text[:len(text) - len(base_text)]
+    if re.fullmatch(r'message:\S[^\n]*\n(?: {5,}\S[^\n]*\n)*[ \t]*\n', head, flags=re.I):
+        return 'message_block_no_blank_after_colon'
     return None
 
 
@@ -546,7 +559,7 @@ def compare(base_text, base, text, desc, numbers, res, args=()):
 
 
 def run_sweep(res, tier, rng):
-    n_decks = 200 if tier == 'quick' else 2500
+    n_decks = 200 if tier == 'quick' else 1800
     n_rewrites = 6
     n_ok = n_fail = 0
     for k in range(n_decks):
@@ -576,6 +589,16 @@ def run_sweep(res, tier, rng):
                     res, args)
         if k == 0:
             res.sample({'deck': base_text, 'rewrite': text})
+        # separate, labelled stream (open finding): the canonical text behind
+        # a message block whose first word goes on after the colon
+        if base[0] == 'ok' and k % 8 == 0:
+            text = rng.choice(['message:outp=x', 'MESSAGE:o=x r=y', 'Message:xsdir=a\n     outp=b']) \
+                + '\n' + rng.choice(['', ' ', '\t']) + '\n' + base_text
+            res.seen(text)
+            res.count('sweep:stream:message_without_blank')
+            compare(base_text, base, text,
+                    {'used': ['message block without blank after the colon'],
+                     'stream': 'message_without_blank'}, False, res, args)
     res.obligation(f'sweep: {n_decks} decks x {n_rewrites} random layouts, '
                    f'{n_ok} converted, '
                    f'{n_fail} rejected (the rewrite must be rejected the same '
@@ -585,11 +608,15 @@ def run_sweep(res, tier, rng):
 # ---------------------------------------------------------------------------
 # known findings
 # ---------------------------------------------------------------------------
-WITNESS_BASE = ('witness\n1 1 {rho} -1 imp:n={i}\n2 0 1 -2 fill=1 ({x} 0 0) imp:n=1\n'
+WITNESS_BASE = ('{pre}witness\n1 1 {rho} -1 imp:n={i}\n2 0 1 -2 fill=1 ({x} 0 0) imp:n=1\n'
                 '3 0 -3 u=1 imp:n=1\n4 0 3 u=1 imp:n=1\n5 0 2 imp:n=0\n\n'
                 '1 1 so {r}\n2 so 9.0\n3 so 1.0\n\ntr1 {t} 0 0\nm1 1001 2 8016 {f}\n')
-WITNESS_DEFAULT = dict(rho='-1.0', r='5.0', t='1.0', f='1.0', x='1.0', i='1')
+WITNESS_DEFAULT = dict(rho='-1.0', r='5.0', t='1.0', f='1.0', x='1.0', i='1', pre='')
 WITNESSES = [
+    # open: message block whose first word goes on after the colon
+    ('message:outp=x', dict(pre='message:outp=x\n\n')),
+    ('MESSAGE:OUTP=x and a continuation line', dict(pre='MESSAGE:OUTP=x\n     runtpe=r\n \n')),
+    ('message: outp=x (with the blank: recognised)', dict(pre='message: outp=x\n\n')),
     # repaired in /repo a161adb (to_float in parse_keywords)
     ('IMP:N=1.0+0 on a cell card', dict(i='1.0+0')),
     ('IMP:N=.1d1 on a cell card', dict(i='.1d1')),
@@ -697,10 +724,44 @@ def run_corpus(res):
         res.count('corpus:' + ('same' if ok else 'differs'))
 
 
+def coverage_probe():
+    '''A few direct calls of the anchored helpers whose shapes the witnesses,
+    the corpus and the layout tie do not contain (all are also in the
+    exhaustive ties, which run untraced for speed).'''
+    for toks, expected in [(['1', '2r', 'r', '2i', '4', 'i', '5', '3m', 'j', '2j'], None),
+                           (['1', '3r'], 4), (['1', '5r'], 4), (['m'], None), (['1'], 3)]:
+        I.f_expand(toks, expected)
+    for tok in ['1.5', '1.5d3', '-6.4-2', '1.5+-3', 'x']:
+        I.f_to_float(tok)
+    from t4_geom_convert.Kernel.Utils import normalize_float
+    for tok in ['1.0', '1.00', '1.', '6.4-2', '1.50e-3', '-5d4', '7']:
+        normalize_float(tok)
+    for text in ['     y\n1 x &\nc k\n z\n', 'c\n', '1 x\n\tq\n']:
+        I.f_get_cards(text)
+        I.f_block_cards(text)
+    for text in ['', 'a', 'a\n\nb\n\nc\n\nd\n\ne', 'message: x\n\nt\nc\n']:
+        I.f_blocks(text)
+
+
 def run(res, tier, seed, proofs_ok):
+    import c14_cov
     del I.HANGS[:]
+    cov = c14_cov.LineCov(c14_cov.anchored_functions())
     try:
-        run_all(res, tier, seed)
+        run_all(res, tier, seed, cov)
+        total, missing = cov.missing(c14_cov.UNREACHABLE)
+        res.obligation('coverage: witnesses, corpus, layout tie and probe calls '
+                       f'execute every reachable line of the anchored functions '
+                       f'({total} lines of {len(cov.codes)} code objects)',
+                       not missing, f'never executed: {missing[:6]}')
+        res.extra['anchored_lines'] = total
+        if missing:
+            res.violation('harness-error',
+                          'generated inputs no longer reach these lines of the '
+                          f'anchored code (strengthen the generators): {missing[:8]}',
+                          {'theorem_or_correspondence': 'coverage',
+                           'input': {'lines': [list(m) for m in missing[:20]]}},
+                          found_input=False)
     except I.TooManyHangs as exc:
         res.obligation('implementation calls return', False, str(exc))
         res.violation('impl-violation', 'the front end does not terminate: '
@@ -710,7 +771,7 @@ def run(res, tier, seed, proofs_ok):
                       found_input=True)
 
 
-def run_all(res, tier, seed):
+def run_all(res, tier, seed, cov):
     rng = random.Random(seed)
     res.rule = ('(a) every string up to a length over small alphabets for each '
                 're-implemented regex/str method; (b) all line sequences from '
@@ -722,15 +783,19 @@ def run_all(res, tier, seed):
                 'message block, blank-line runs, dropped "=", IMP/FILL shorthand, '
                 'number spellings) + malformed texts + a fixed corpus; non-trivial = text differs from '
                 'the canonical rendering / >= 2 lines')
-    run_witnesses(res)
-    run_corpus(res)
+    with cov:
+        run_witnesses(res)
+        run_corpus(res)
+        coverage_probe()
     # the Python side of the three ties first, then their Coq files run in the
     # background while the sweep converts decks
     from concurrent.futures import ThreadPoolExecutor
     rng_layout = random.Random(rng.random())
     rng_sweep = random.Random(rng.random())
+    with cov:
+        layout_phase = prepare_layout(res, tier, rng_layout)
     phases = [prepare_exhaustive(res, tier), prepare_lines(res, tier),
-              prepare_layout(res, tier, rng_layout), prepare_expand(res, tier)]
+              layout_phase, prepare_expand(res, tier)]
     with ThreadPoolExecutor(max_workers=4) as pool:
         futures = [pool.submit(job) for job, _ in phases]
         run_sweep(res, tier, rng_sweep)
